@@ -25,7 +25,7 @@ func init() {
 		Patterns: pats,
 		Explanation: "A pairing table is built from the repository itself: every Increase()/Decrease() on a types.Resource and every Inc/Dec on a gauge field named *Active is a site, keyed by counter (resource kind, or owner+gauge). Every increment site must be matched with decrement site(s) of the same counter in its package by exactly one recognised idiom, and every decrement site must belong to a pair: " +
 			"I1 listener-paired (increment control-equivalent with stream.AddEventListener(L) in NewStream; decrement unconditional in L.OnDestroyStream, which BaseStream runs once behind its CAS); I2 CAS-paired (increment in the stream constructor, decrement in a function called only behind a one-shot CompareAndSwap); I3 token-paired (a token set with the increment, decrement only under the token, token cleared); I4 event-paired (increment on the success continuation of Connect / together with registering the connection event listener; decrement under event.IsClose(), and connection.Close emits its event behind a one-shot CAS and only for an established connection). " +
-			"Overflow returns are reached before any increment; CanCreate compares cur < max with max==0 unlimited. (PAIR, retry state) every store of nil into downStream.retryState is preceded by retryState.reset() on every path on which the state is non-nil. (I4, round 6) the conditions on the ConnectionEvent parameter are evaluated per event value: an event-paired decrement (or every call of its helper) is reachable for every closing event - the set IsClose tests, a frozen table compared with mosn.io/api on every run - and for no other.",
+			"Overflow returns are reached before any increment; CanCreate compares cur < max with max==0 unlimited. (PAIR, retry state) every store of nil into downStream.retryState is preceded by retryState.reset() on every path on which the state is non-nil. (I4, round 6) the conditions on the ConnectionEvent parameter are evaluated per event value: an event-paired decrement (or every call of its helper) is reachable for every closing event - the set IsClose tests, a frozen table compared with mosn.io/api on every run - and for no other. (POOL) the C09.R4 pool-count rule evaluated as a clause of this property.",
 		Run: runC10,
 	})
 }
@@ -75,6 +75,8 @@ func counterKey(cc *ssa.CallCommon) (string, bool, bool) {
 func runC10(c *Ctx) {
 	defer c10RetryAbort(c)
 	defer c10CloseSetCrossCheck(c)
+	c.Rule("C10.POOL", "the pools' own connection counts (compared with max_connections) are taken exactly once per created connection and given back whenever none is handed out", 2)
+	defer c09Count(c, "C10.POOL")
 	c.Rule("C10.PAIR", "every increment is paired with its decrement by one recognised idiom; no orphan decrement", 30)
 	c.Rule("C10.ONCE", "the events the pairings rely on are delivered at most once (stream destroy CAS, connection close CAS, clean CAS)", 4)
 	c.Rule("C10.IDENT", "one counter object per cluster across updates: increments and decrements of one admission hit the same resource manager", 3)
